@@ -283,14 +283,22 @@ func (s *SeqLog) DyingRound(k int, how string, rng *rand.Rand) error {
 	default:
 		return fmt.Errorf("unknown death %q", how)
 	}
+	before := ReadCP(s.Lock.value(), s.ID.Name, &s.ID.Key.PublicKey).N
 	err := s.L.VerifSequence(context.Background())
 	s.be.setRefuse(nil)
-	if err == nil {
-		return errors.New("the round that was to die succeeded")
+	// (a failure that is not fatal to the sequencer loop is reported to the
+	// submitters only: sequence returns nil then)
+	after := ReadCP(s.Lock.value(), s.ID.Name, &s.ID.Key.PublicKey).N
+	pubBytes, _ := os.ReadFile(filepath.Join(s.Dir, "checkpoint"))
+	pub := ReadCP(pubBytes, s.ID.Name, &s.ID.Key.PublicKey).N
+	want := before + int64(k)
+	if how == "cas" {
+		want = before
 	}
-	if how != "cas" {
-		s.Size += int64(k)
+	if after != want || pub != before {
+		return fmt.Errorf("dying round %q: lock %d -> %d (expected %d), published %d (expected %d), err %v", how, before, after, want, pub, before, err)
 	}
+	s.Size = after
 	return nil
 }
 
